@@ -105,6 +105,9 @@ def _queue(db, chk, m, TR):
             calls = T.find(d, lambda s: s[0] == "call" and str(s[1]).endswith("sym_index.get"))
             if d[0] == "cmp" and d[1] == "==" and len(calls) == 1 and T.col(TR, "name") in T.find(d, lambda s: s[0] == "col"):
                 names.add(calls[0][2][1])
+            elif d[0] == "in" and d[1] == T.col(TR, "name") and isinstance(d[2], tuple) and d[2][0] == "set" and d[2][1] and all(
+                    isinstance(x_, tuple) and x_[0] == "call" and str(x_[1]).endswith("sym_index.get") and len(x_) >= 3 and T.is_const(x_[2]) for x_ in d[2][1]):
+                names |= {x_[2][1] for x_ in d[2][1]}          # the same table written as a membership test: name in {id(n1), id(n2), ...}
             else:
                 bad.append(T.show(d)[:100])
     chk.ob(rule, "launch-name table: name == id(<launch name>) for a set containing the CUDA / MTIA launch calls", not bad and LAUNCH_NAMES_REQUIRED <= names, where,
